@@ -98,6 +98,8 @@ def codeStr : Code → String
   | .invalidDelimiter => "PCORE_INVALID_STRING_FORMAT_DELIMITER"
   | .repeatedFlag => "PCORE_INVALID_STRING_FORMAT_REPEATED_FLAG"
   | .failure => "PCORE_FAILURE"
+  | .notInteger => "PCORE_NOT_INTEGER"
+  | .illegalArguments => "PCORE_ILLEGAL_ARGUMENTS"
 
 def resStr : Res → String
   | .text s => if s.contains sentinel then "out-of-model" else "text " ++ hexOfString (String.ofList s)
@@ -143,7 +145,24 @@ def execFmt (io : FloatIO) (ctx ve : Sexp) : String :=
          | .ok m => resStr (format io m v))
       | _ => "bad-op"
 
+/-- `back <directive> <int>`: render, then read the text back with the Integer constructor and the letter's radix -/
+def execBack (d : String) (i : Int) : String :=
+  match newFormat d.toList with
+  | .error c => "render reported " ++ codeStr c
+  | .ok f =>
+    match format driverIO [(.int, .mk f none)] (.int i) with
+    | .text s =>
+      if s.contains sentinel then "out-of-model"
+      else match newInteger s (letterRadix f.letter) with
+        | .int n => s!"int {n}"
+        | .reported c => "reported " ++ codeStr c
+    | r => "render " ++ resStr r
+
 def exec : List Sexp → String
+  | [.atom "back", d, i] =>
+    (match d.str?, i.int? with
+     | some d, some i => execBack d i
+     | _, _ => "bad-op")
   | [.atom "fmt", ctx, ve] => execFmt driverIO ctx ve
   | [.atom "fmtf", ctx, ve, ofint, oracle] =>
     match oracleOf oracle with
